@@ -350,7 +350,16 @@ def run(tier, seed, replay=None):
     parts = pmap(ck, _job, [(seed * 100 + i, nprog // 16, length) for i in range(16)], "c15", timeout=PMAP_TIMEOUT, chunksize=1)
     if parts is None:
         ck.finish()
-    traces = [t for p in parts for t in p if t]
+    traces = []
+    for tr_ in [t for p in parts for t in p if t]:
+        for k_, ev_ in enumerate(tr_):
+            if '"nonint"' in json.dumps(ev_["heap"]) or '"nonint"' in json.dumps(ev_["out"]):
+                ck.violation(classify(ev_, "non-integer-value"), "step %d (%s) produced a non-integer value from integer data" % (
+                    k_ + 1, json.dumps(ev_["op"])[:160]), {"trace": tr_[max(0, k_ - 2):k_ + 1]})
+                tr_ = tr_[:k_]
+                break
+        if tr_:
+            traces.append(tr_)
     for c0 in range(0, len(traces), 2500):
         part = traces[c0:c0 + 2500]
         wd = tlc.workdir("c15/tr%d" % (c0 // 2500))
